@@ -70,6 +70,14 @@ fn main() {
                     std::process::exit(141);
                 }
             }
+            "catstdin" => {
+                // what a filter does: its standard input (which rg connects to the file) to its output
+                let mut data = vec![];
+                let _ = std::io::stdin().read_to_end(&mut data);
+                if out.write_all(&data).and_then(|_| out.flush()).is_err() && !ignore_pipe {
+                    std::process::exit(141);
+                }
+            }
             "fill" => {
                 let n: usize = parts[1].parse().unwrap_or(0);
                 let line = b"filler filler filler filler filler filler filler filler filler\n";
